@@ -1,7 +1,9 @@
 package c03
 
 import (
+	"encoding/json"
 	"errors"
+	"fmt"
 	"math"
 	"regexp"
 	"strings"
@@ -9,6 +11,7 @@ import (
 
 	"github.com/luthersystems/elps/lisp"
 	"github.com/luthersystems/elps/lisp/lisplib/libjson"
+	"github.com/luthersystems/elps/lisp/lisplib/libtesting"
 	"pgregory.net/rapid"
 )
 
@@ -55,6 +58,34 @@ type hostStruct struct {
 type hostEmbed struct {
 	*hostInner
 	Z int
+}
+
+// hostDeep embeds a pointer to a struct that itself embeds a pointer: fields
+// are promoted through two levels, either of which may be nil.
+type hostDeep struct {
+	*hostEmbed
+	W int
+}
+
+// hostNils holds a nil value of every nilable kind.
+type hostNils struct {
+	M  map[string]int
+	S  []int
+	F  func()
+	I  interface{}
+	E  error
+	P  *hostInner
+	C  chan int
+	PP **hostInner
+	T  *time.Time
+	R  *regexp.Regexp
+	J  *json.RawMessage
+}
+
+// hostIface embeds a nil interface (its method set is promoted).
+type hostIface struct {
+	fmt.Stringer
+	N int
 }
 
 type builder struct {
@@ -205,11 +236,83 @@ func (b *builder) native(sel int64, p uint64) interface{} {
 		return time.Date(-292277022399, 1, 1, 0, 0, 0, 0, time.UTC)
 	case 29:
 		return int8(-3)
+	case 30:
+		return (*json.RawMessage)(nil)
+	case 31:
+		return (*time.Duration)(nil)
+	case 32:
+		return (*lisp.LEnv)(nil)
+	case 33:
+		return (*lisp.MapData)(nil)
+	case 34:
+		return (*lisp.CallStack)(nil)
+	case 35:
+		return (*[]byte)(nil)
+	case 36:
+		return (*string)(nil)
+	case 37:
+		return (*int)(nil)
+	case 38:
+		return (*float64)(nil)
+	case 39:
+		return (*hostEmbed)(nil)
+	case 40:
+		return hostDeep{W: 1} // nil *hostEmbed: Z, X, Y promoted through it
+	case 41:
+		return &hostDeep{hostEmbed: &hostEmbed{}} // second level nil: X, Y
+	case 42:
+		return hostNils{}
+	case 43:
+		return &hostNils{}
+	case 44:
+		return map[string]int(nil)
+	case 45:
+		return []int(nil)
+	case 46:
+		return (func())(nil)
+	case 47:
+		return (chan int)(nil)
+	case 48:
+		return json.RawMessage(nil)
+	case 49:
+		return &json.RawMessage{}
+	case 50:
+		return (*time.Location)(nil)
+	case 51:
+		return (*libtesting.TestSuite)(nil)
+	case 52:
+		return (*error)(nil)
+	case 53:
+		return hostIface{N: 1}
+	case 54:
+		return &hostIface{}
+	case 55:
+		return (*hostNils)(nil)
+	case 56:
+		return (*hostDeep)(nil)
+	case 57:
+		var pp **hostInner
+		return pp
+	case 58:
+		var p *hostInner
+		return &p // non-nil pointer to a nil pointer
+	case 59:
+		rm := json.RawMessage(`{"a":1}`)
+		return &rm
+	case 60:
+		return []byte(nil)
+	case 61:
+		return [0]int{}
 	}
 	return struct{ A int }{int(sel)}
 }
 
-const numNativeSel = 30
+const numNativeSel = 62
+
+// hostFieldNames are the field names (own, promoted, unexported, absent) of the
+// host struct types above, for builtins that take a field name.
+var hostFieldNames = []string{"X", "Y", "Z", "W", "Name", "Ptr", "Fn", "Any", "Items", "ByName", "Inner", "Time", "hidden", "private",
+	"M", "S", "F", "I", "E", "P", "C", "PP", "T", "R", "J", "N", "Stringer", "String", "hostInner", "hostEmbed", "", "Nope"}
 
 func abs64(i int64) int64 {
 	if i < 0 {
@@ -467,6 +570,31 @@ func (b *builder) build0(d VD) *lisp.LVal {
 			return lisp.Nil()
 		}
 		return v
+	case "call":
+		// the value a registered callable answers for built arguments (a
+		// schema constraint, a validator, a compiled regexp, a json message ...).
+		// An error answer is itself the value.
+		b.hostile = true
+		f := b.lookupFun(string(d.S))
+		if f == nil {
+			return lisp.Nil()
+		}
+		cells := make([]*lisp.LVal, len(d.L))
+		b.children(d.L, cells)
+		var r *lisp.LVal
+		func() {
+			defer func() {
+				if recover() != nil {
+					r = nil
+				}
+			}()
+			r = b.env.FunCall(f, lisp.QExpr(cells))
+		}()
+		if r == nil {
+			return lisp.Nil()
+		}
+		b.reg(d, r)
+		return r
 	case "ref":
 		if v, ok := b.ids[d.ID]; ok {
 			b.cyclic = true
